@@ -95,6 +95,9 @@ def gen_program(rng, idx):
 
 
 NAMES = ["class", "result", "reason", "stdout", "effects"]
+KNOWN_PROBES = [("optimised-differs:probe:folded-conversion-result-is-const", "print(++int(5))"),
+                ("optimised-differs:probe:folded-conversion-result-is-const", "print(--double(2))"),
+                ("optimised-differs:probe:folded-conversion-result-is-const", "def g(v) { ++v }\nprint(g(int(3)))")]
 
 
 def run(ctx, tier, seed, scale=1.0):
@@ -133,6 +136,16 @@ def run(ctx, tier, seed, scale=1.0):
                           {"program": s, "optimised": dict(zip(NAMES, a)), "unoptimised": dict(zip(NAMES, b))})
         if len(ctx.samples) < 3 and rng.random() < 0.001:
             ctx.sample({"program": s[:1500], "outcome": a[0], "result": a[1]})
+    # recorded finding (known_findings.txt): Constant_Fold turns int(5) / double(2) into a *const* constant, the unoptimised call yields a fresh
+    # mutable temporary. Each probe runs alone; the key names the probe, any other difference is still reported under its own key.
+    pc = [["D", prog] for _, prog in KNOWN_PROBES]
+    pres, _ = vlib.run_cases(exe, pc, "c02k", timeout_s=60, batch=1)
+    for (key, prog), r in zip(KNOWN_PROBES, pres):
+        ctx.evaluations += 1
+        if r.status == "ok" and r.fields[:5] != r.fields[5:10]:
+            ctx.violation(key, {"program": prog, "optimised": dict(zip(NAMES, r.fields[:5])), "unoptimised": dict(zip(NAMES, r.fields[5:10]))})
+        else:
+            ctx.count("known-probe-no-longer-differs")
     ctx.counters["node-census optimised/unoptimised"] = {k: "%d/%d" % tuple(v) for k, v in census_tot.items()}
     for k in ("(Compiled)", "(Scopeless_Block)", "(Assign_Decl)"):
         ctx.counters["optimised-nodes:" + k] = census_tot.get(k, [0, 0])[0]
